@@ -2173,3 +2173,59 @@ Proof.
   rewrite (list_eqb_refl' zpair_eqb _ zpair_eqb_refl).
   rewrite (list_eqb_refl' zlist_eqb _ zlist_eqb_refl'). reflexivity.
 Qed.
+
+
+(* ---------- stream "size": the model's rounds satisfy the predicate of the stream ---------- *)
+(* A round in which the terminal answers the request with its two reports (CSI 4;h;w t then
+   CSI 8;r;c t), from a state in which no token is left in chSizeDone and both capabilities are
+   known: the request is answered by the report of ITS round, no token is left behind. *)
+Section SizeSound.
+Variable dec : item -> ikey.
+Variable b64 : list Z -> option (list Z).
+
+Definition round_of (h w r c : Z) : list step :=
+  [SItem (ICsi [] [[4]; [h]; [w]] 116); SItem (ICsi [] [[8]; [r]; [c]] 116)].
+
+Definition size_ready (s : vxstate) : Prop :=
+  q_stalled s = None /\ size_done s = 0 /\ c_chars (vcaps s) = true /\ c_pix (vcaps s) = true.
+
+Lemma round_model s win h w r c : size_ready s ->
+  exists s', zround_model dec b64 s win (round_of h w r c)
+             = Some (s', fst (announce win (mkSize c r w h)), snd (announce win (mkSize c r w h)))
+             /\ size_ready s'.
+Proof.
+  intros (Hq & Hd & Hc & Hp). unfold zround_model. rewrite Hd. cbn.
+  rewrite Hp. cbn.
+  change (par [[4]; [h]; [w]] 1) with (Some h). change (par [[4]; [h]; [w]] 2) with (Some w).
+  change (par [[8]; [r]; [c]] 1) with (Some r). change (par [[8]; [r]; [c]] 2) with (Some c).
+  cbn. rewrite Hc. cbn. unfold send_size_done. cbn. rewrite Hd. cbn.
+  destruct (announce win (mkSize c r w h)) as [w' o] eqn:E.
+  eexists. split; [reflexivity|]. unfold size_ready. cbn. auto.
+Qed.
+
+Lemma osize_eqb_sym a b : osize_eqb a b = osize_eqb b a.
+Proof.
+  destruct a as [x|], b as [y|]; cbn; try reflexivity. unfold size_eqb.
+  rewrite (Z.eqb_sym (s_cols x)), (Z.eqb_sym (s_rows x)), (Z.eqb_sym (s_xpix x)), (Z.eqb_sym (s_ypix x)).
+  reflexivity.
+Qed.
+
+Definition clean_round (p : (Z * Z * Z * Z) * option size) : zround :=
+  let '((h, w, r, c), obs) := p in (round_of h w r c, obs).
+
+Theorem size_predicate_sound (ps : list ((Z * Z * Z * Z) * option size)) :
+  forall s win pix, size_ready s ->
+    zrounds_model dec b64 s win (map clean_round ps) = true ->
+    zspec win pix (map clean_round ps) = true.
+Proof.
+  induction ps as [|[[[[h w] r] c] obs] t IH]; intros s win pix Hs Hm; [reflexivity|].
+  cbn [map clean_round zrounds_model] in Hm.
+  destruct (round_model s win h w r c Hs) as (s' & Hr & Hs'). rewrite Hr in Hm.
+  apply andb_prop in Hm. destruct Hm as [Ho Hm].
+  cbn [map clean_round zspec]. 
+  change (reported pix (round_of h w r c)) with (Some (c, r), (w, h)). cbn [fst snd].
+  unfold announce in Ho, Hm. 
+  destruct (win_same win (mkSize c r w h)); cbn [fst snd] in Ho, Hm; rewrite osize_eqb_sym, Ho; cbn [andb];
+    eapply IH; eauto.
+Qed.
+End SizeSound.
